@@ -5,5 +5,61 @@ from vk.pyvc.run import verify
 
 def prove(run):
     verify(run, M.REL, M.move_qnidx, fingerprint=M.FINGERPRINT_MOVE)
-    run.trusted += ["labels modelled with one integer component (the code acts componentwise on qn vectors)",
+    lemma_qnv_implies_sector(run)
+    run.trusted += ["L-QN (QN-valid labels => the dense object lies in the sector qntot) is no longer cited: mechanised as inductions discharged by z3 (lemma:qnv_implies_sector:*)",
+                    "labels modelled with one integer component (the code acts componentwise on qn vectors)",
                     "`site_num` (property len(self._mp)) modelled as a field of the receiver"]
+
+
+def lemma_qnv_implies_sector(run):
+    """L-QN (DESIGN 8, formerly cited): QNV(mp) => every non-zero product term of the dense object carries total charge qntot.
+
+    A product term picks bond indices l_0..l_n (l_0 = l_n = the single boundary row, label 0) and physical configurations s_0..s_{n-1} with
+    supp(i, l_i, s_i, l_{i+1}) for every site.  Telescoping with the three label rules of QNV gives  sum_i sig(i, s_i) = qntot.  Mechanised as two inductions
+    over the site index (prefix sums left of the centre, suffix sums right of it) plus the closing step at the centre; every step is discharged by z3
+    (linear integer arithmetic with uninterpreted qn / sig / l / s), for every chain length, centre position, label table and tensor support."""
+    import z3
+    I = z3.IntSort()
+    qn = z3.Function("qn", I, I, I)          # qn(bond, row) - one component (the code acts componentwise)
+    sig = z3.Function("sig", I, I, I)        # charge of physical configuration s of site i
+    li = z3.Function("l", I, I)              # the bond index the term picks on bond b
+    si = z3.Function("s", I, I)              # the physical configuration the term picks on site i
+    pre = z3.Function("pre", I, I)           # pre(k)  = sum_{i<k} sig(i, s_i)
+    suf = z3.Function("suf", I, I)           # suf(k)  = sum_{i>=k} sig(i, s_i)
+    n, c, Q, k = z3.Ints("n c Q k")
+    i = z3.Int("i")
+    shape = [n >= 1, 0 <= c, c < n, qn(0, li(0)) == 0, qn(n, li(n)) == 0]
+    # QNV on the entries the term uses (supp holds there by assumption)
+    left = z3.ForAll([i], z3.Implies(z3.And(0 <= i, i < c), qn(i, li(i)) + sig(i, si(i)) == qn(i + 1, li(i + 1))))
+    centre = qn(c, li(c)) + sig(c, si(c)) + qn(c + 1, li(c + 1)) == Q
+    right = z3.ForAll([i], z3.Implies(z3.And(c < i, i < n), qn(i, li(i)) == sig(i, si(i)) + qn(i + 1, li(i + 1))))
+    defs = [pre(0) == 0, z3.ForAll([i], z3.Implies(i >= 0, pre(i + 1) == pre(i) + sig(i, si(i)))),
+            suf(n) == 0, z3.ForAll([i], z3.Implies(z3.And(0 <= i, i < n), suf(i) == sig(i, si(i)) + suf(i + 1)))]
+    P = lambda kk: qn(kk, li(kk)) == pre(kk)          # noqa: E731   left of / at the centre the label counts the charge so far
+    R = lambda kk: qn(kk, li(kk)) == suf(kk)          # noqa: E731   right of the centre the label counts the charge still to come
+    steps = [
+        ("prefix:base", shape + defs + [left], P(z3.IntVal(0))),
+        ("prefix:step", shape + defs + [left, 0 <= k, k < c, P(k)], P(k + 1)),
+        ("suffix:base", shape + defs + [right], R(n)),
+        ("suffix:step", shape + defs + [right, c < k, k < n, R(k + 1)], R(k)),
+        # split of the total charge at the centre: pre(n) = pre(c) + sig_c + suf(c+1), itself by induction on the prefix sums right of the centre
+        ("split:base", shape + defs, pre(c + 1) + suf(c + 1) == pre(c) + sig(c, si(c)) + suf(c + 1)),
+        ("split:step", shape + defs + [c < k, k < n, pre(k) + suf(k) == pre(c + 1) + suf(c + 1)], pre(k + 1) + suf(k + 1) == pre(c + 1) + suf(c + 1)),
+        ("close", shape + defs + [centre, P(c), R(c + 1), pre(n) + suf(n) == pre(c + 1) + suf(c + 1)], pre(n) == Q),
+    ]
+    for name, hyp, goal in steps:
+        s = z3.Solver()
+        s.set("timeout", 20000)
+        s.add(*hyp)
+        s.add(z3.Not(goal))
+        r = s.check()
+        run.oblig(f"lemma:qnv_implies_sector:{name}", "spec:QNV", "A(pyvc-lemma)", "discharged" if r == z3.unsat else "undecided", "z3-5.1(api)",
+                  detail=None if r == z3.unsat else str(r))
+    # vacuity: the hypotheses are satisfiable (a canary that must be sat)
+    s = z3.Solver()
+    s.set("timeout", 20000)
+    ground = [n == 3, c == 1, qn(0, li(0)) == 0, qn(3, li(3)) == 0, qn(0, li(0)) + sig(0, si(0)) == qn(1, li(1)),
+              qn(1, li(1)) + sig(1, si(1)) + qn(2, li(2)) == Q, qn(2, li(2)) == sig(2, si(2)) + qn(3, li(3)), sig(0, si(0)) == 1, sig(1, si(1)) == 0, sig(2, si(2)) == 1]
+    s.add(*ground)
+    if s.check() != z3.sat:      # quantifier-free instance of the hypotheses (3 sites, centre in the middle)
+        run.crash("lemma_qnv_implies_sector: hypotheses unsatisfiable (vacuous lemma)")
